@@ -12,6 +12,7 @@ import (
 	"fmt"
 	"sort"
 	"strings"
+	"sync"
 	"testing"
 
 	"github.com/google/osv-scalibr/detector"
@@ -39,6 +40,39 @@ type c10Case struct {
 type c10Run struct {
 	Mode  string `json:"mode"` // inodes | size | cancel_before | cancel_extract | cancel_inode | cancel_standalone | cancel_detector
 	Param int    `json:"param"`
+	// Deadline: the context ends the way a context.WithDeadline / WithTimeout does (its error is
+	// context.DeadlineExceeded) instead of through cancel() (context.Canceled).
+	Deadline bool `json:"deadline,omitempty"`
+}
+
+// endableCtx is a context the harness ends by hand with either of the two standard errors, so
+// that "the deadline passed at this very point" needs no clock.
+type endableCtx struct {
+	context.Context
+	mu   sync.Mutex
+	done chan struct{}
+	err  error
+}
+
+func newEndableCtx() *endableCtx {
+	return &endableCtx{Context: context.Background(), done: make(chan struct{})}
+}
+
+func (c *endableCtx) Done() <-chan struct{} { return c.done }
+
+func (c *endableCtx) Err() error {
+	c.mu.Lock()
+	defer c.mu.Unlock()
+	return c.err
+}
+
+func (c *endableCtx) end(err error) {
+	c.mu.Lock()
+	defer c.mu.Unlock()
+	if c.err == nil {
+		c.err = err
+		close(c.done)
+	}
 }
 
 type c10Sub struct {
@@ -97,8 +131,16 @@ func (c c10Case) roots() []*scalibrfs.ScanRoot {
 func (c c10Case) run(r c10Run) scanOut {
 	cfg := c.Cfg
 	rec := &recext.Recorder{}
-	ctx, cancel := context.WithCancel(context.Background())
-	defer cancel()
+	ectx := newEndableCtx()
+	var ctx context.Context = ectx
+	cancel := func() {
+		if r.Deadline {
+			ectx.end(context.DeadlineExceeded)
+		} else {
+			ectx.end(context.Canceled)
+		}
+	}
+	defer ectx.end(context.Canceled)
 	switch r.Mode {
 	case "inodes":
 		cfg.MaxInodes = r.Param
@@ -323,12 +365,19 @@ func propC10(c c10Case) (ev.Outcome, error) {
 		for k := 0; k < 2*c.NDetectors; k++ {
 			runs = append(runs, c10Run{Mode: "cancel_detector", Param: k})
 		}
+		// every cancellation point once more with a context that ends like a deadline
+		for _, r := range append([]c10Run(nil), runs...) {
+			if strings.HasPrefix(r.Mode, "cancel_") {
+				r.Deadline = true
+				runs = append(runs, r)
+			}
+		}
 	}
 	for _, r := range runs {
 		nt, err := c.decide(r, base)
 		if len(c.Only) == 0 {
 			col.Record(c10Sub{Scenario: scen, Run: r, Case: c10Case{Trees: c.Trees, Cfg: c.Cfg, Exts: c.Exts, NStandalone: c.NStandalone, NDetectors: c.NDetectors, ReadDirFile: c.ReadDirFile, Only: []c10Run{r}}},
-				ev.Outcome{NonTrivial: nt, Classes: []string{"mode_" + r.Mode}, Key: scen + fmt.Sprint(r)}, nil)
+				ev.Outcome{NonTrivial: nt, Classes: modeClasses(r), Key: scen + fmt.Sprint(r)}, nil)
 		}
 		if err != nil {
 			return o, err
@@ -343,4 +392,11 @@ func propC10(c c10Case) (ev.Outcome, error) {
 
 func TestC10_scan(t *testing.T) {
 	ev.Check(t, ev.Get("C10"), ev.Scale(150, 1500), genC10, propC10)
+}
+
+func modeClasses(r c10Run) []string {
+	if r.Deadline {
+		return []string{"mode_" + r.Mode, "context_ends_by_deadline"}
+	}
+	return []string{"mode_" + r.Mode}
 }
